@@ -325,6 +325,10 @@ structure HandlerFacts where
   structGate : Gate
   structEmptyBodyIsRead : Bool
   adapterGate : Gate
+  /-- both TCP servers frame a response with `response_echo_query(&resp, view.query)` – the query of
+      the request being answered, taken from the view of the current read buffer – and hand exactly that
+      to the writer -/
+  serversEchoViewQuery : Bool
   deriving Repr
 
 end Repe.Router
